@@ -234,6 +234,8 @@ def call_values(I, c, args, e=None, env=None):
             return Num(x.expr.powf(exponent_of(as_num(args[1]))))
         if name == "recip":
             return Num(x.expr.inv())
+        if name == "powi":
+            return Num(x.expr.powf(exponent_of(as_num(args[1]))))
         if name in ("min", "max"):
             return Num(Expr.atom(("call", name, x.expr, as_num(args[1]).expr)))
     if path.startswith("statrs::function::gamma::gamma") and name == "gamma":
